@@ -417,6 +417,6 @@ def _enum_cases(chunk):
 
 def parts(tier):
     return [
-        hyp_part("streams", s_stream, interpret, tier, quick=400, thorough=6000, quick_shards=8, thorough_shards=16),
+        hyp_part("streams", s_stream, interpret, tier, quick=250, thorough=3000, quick_shards=8, thorough_shards=16),
         EnumPart("two-frame-cuts", _enum_chunks(tier), _enum_cases, interpret),
     ]
